@@ -10,7 +10,8 @@ typedef uint32_t	a_word_t;
 #define A_DIG		16	/* digest bytes */
 #define A_LENB		8	/* bytes of the length field in the padding */
 #define A_BE		0	/* length field and digest words little endian (RFC 1321 3.2, 3.5) */
-#define A_HAVOC		64	/* md5_transform copies an unaligned block into ctx->buffer */
+#define A_HAVOC		8	/* md5_transform copies an unaligned block into ctx->buffer (uint64_t[8]) */
+typedef uint64_t	a_havoc_t;
 #include "v_ref_md5.h"		/* generated: v_md5_iv[], v_ref_md5_compress() */
 #define a_iv		v_md5_iv
 #define a_ref_compress	v_ref_md5_compress
@@ -36,7 +37,8 @@ static void v_md5_transform_stub(struct md5_ctx_s *ctx, const uint8_t *block) {
 	unsigned k = v_abs_step(ctx->hash, block);
 	/* the real transform may overwrite ctx->buffer (copy of an unaligned block); only when block is not the buffer */
 	if (k < V_MAXCALLS && block != (const uint8_t *)ctx->buffer)
-		memcpy(ctx->buffer, v_havoc[k], MD5_MSG_BLK_SIZE);
+		for (size_t i = 0; i < A_HAVOC; i++)
+			ctx->buffer[i] = v_havoc[k][i];
 }
 #else
 static inline void a_real_transform(md5_ctx_t *ctx, const uint8_t *blocks, size_t nblocks) {
